@@ -181,6 +181,7 @@ package ice
 //@   modifies fam:H_ice.Agent.pendingBindingRequests*, fam:H_ice.bindingRequest.*, fam:E_*
 //@   ensures result0 ==> result1 != nil && fresh(result1)
 //@   ensures no-match-no-request: !result0 ==> result1 == nil
+//@   site store pendingBindingRequests#1 assert the-matched-transaction-is-consumed-so-that-a-repeated-response-matches-nothing: len(value) == len(a.pendingBindingRequests) - 1
 
 //@ enumerate C20 stores ice.controllingSelector.lastConfirmedNomination in (*controllingSelector).Start, (*controllingSelector).HandleSuccessResponse
 
